@@ -284,6 +284,13 @@ def plan(pid, tier, seed):
     if pid != 'C11':
         for s in range(2 if tier == 'quick' else 4):
             jobs.append({'name': 'edge-%d' % s, 'kind': 'edge', 'shard': s, 'weight': 2})
+        for cu in CULTURES:
+            sh = 1 if tier == 'quick' else 3
+            for s in range(sh):
+                jobs.append({'name': 'ws-%s-%d' % (cu, s), 'kind': 'wsperturb', 'culture': cu, 'shard': s, 'shards': sh, 'weight': 2})
+            sh = (2 if cu in ('zh-cn', 'en-us') else 1) if tier == 'quick' else 4
+            for s in range(sh):
+                jobs.append({'name': 'wsent-%s-%d' % (cu, s), 'kind': 'wsentity', 'culture': cu, 'shard': s, 'shards': sh, 'weight': 2})
     gens = GEN_QUICK if tier == 'quick' else GEN_ALL
     if pid == 'C11':
         gens = [g for g in gens if g in ('c06', 'c07', 'c08', 'c09', 'c10')] if tier == 'thorough' else ['c06', 'c07']
@@ -378,6 +385,75 @@ def run(pid, job, ctx):
                     lib.call(m, mt, q, R)
                 except Exception:
                     pass
+    elif kind == 'wsperturb':
+        # white-space perturbation of Specs inputs: a blank inserted between two characters (CJK: anywhere; other
+        # cultures: an existing blank doubled / turned into a tab or NBSP), leading and trailing blanks
+        cu = job['culture']
+        models = [(mt, m) for rn, mt, c, m in lib.models_for(culture=cu)]
+        if not models:
+            return
+        inputs = lib.corpus_inputs(cu, supported_only=True)
+        r = ctx.rng('ws:%s:%d' % (cu, job['shard']))
+        n = 120 if ctx.tier == 'quick' else 1500
+        picks = r.sample(inputs, min(n, len(inputs)))
+        cjk = cu in ('zh-cn', 'ja-jp')
+        for k, (q, ref) in enumerate(picks):
+            if k % job['shards'] != job['shard']:
+                continue
+            R = lib.parse_ref(ref) if ref else dt.datetime(2016, 11, 7)
+            variants = set()
+            if cjk:
+                pos = list(range(1, len(q)))
+                for i in (pos if len(pos) <= 12 else r.sample(pos, 12)):
+                    variants.add(q[:i] + ' ' + q[i:])
+            else:
+                sp = [i for i, ch in enumerate(q) if ch == ' ']
+                for i in (sp if len(sp) <= 5 else r.sample(sp, 5)):
+                    variants.add(q[:i] + r.choice(['  ', '\t', '\u00a0', ' \n']) + q[i + 1:])
+            variants.add('  ' + q)
+            variants.add(q + '  ')
+            for v in sorted(variants):
+                for mt, m in models:
+                    try:
+                        lib.call(m, mt, v, R)
+                    except Exception:
+                        pass
+    elif kind == 'wsentity':
+        # the entity expressions the Specs expect (Results[].Text of supported model-level cases), each with a blank
+        # inserted at every inner position (CJK) / every inner blank widened (other cultures), alone and in a carrier
+        cu = job['culture']
+        models = [(mt, m) for rn, mt, c, m in lib.models_for(culture=cu)]
+        if not models:
+            return
+        texts = lib.corpus_entity_texts(cu)
+        r = ctx.rng('wsent:%s' % cu)
+        cjk = cu in ('zh-cn', 'ja-jp')
+        unit_texts = [t for rec, t in texts if rec == 'NumberWithUnit']
+        other = [t for rec, t in texts if rec != 'NumberWithUnit']
+        n_other = 150 if ctx.tier == 'quick' else 3000
+        pool = sorted(set(unit_texts if (cjk or ctx.tier == 'thorough') else r.sample(unit_texts, min(150, len(unit_texts)))) |
+                      set(r.sample(other, min(n_other, len(other)))))
+        for k, t in enumerate(pool):
+            if k % job['shards'] != job['shard']:
+                continue
+            variants = set()
+            if cjk:
+                for i in range(1, len(t)):
+                    if not t[i].isspace() and not t[i - 1].isspace():
+                        variants.add(t[:i] + ' ' + t[i:])
+            else:
+                for i, ch in enumerate(t):
+                    if ch == ' ':
+                        variants.add(t[:i] + '  ' + t[i + 1:])
+                        variants.add(t[:i] + '\t' + t[i + 1:])
+            R = dt.datetime(2016, 11, 7, 10, 30)
+            for v in sorted(variants)[:14]:
+                for q in ((v, '今天' + v + '了') if cjk else (v, 'x ' + v + ' y')):
+                    for mt, m in models:
+                        try:
+                            lib.call(m, mt, q, R)
+                        except Exception:
+                            pass
     elif kind == 'edge':
         # every expression in every white-space / punctuation context: matches that begin or end with a blank,
         # expressions at the very start / end of the query, tabs, NBSP, newlines
